@@ -117,6 +117,15 @@ def slice_probs(facts, b):
             if s["k"] == "assign" and s["pl"]["p"] and isinstance(s["pl"]["p"][-1], dict) and s["pl"]["p"][-1].get("adt") == BYTES:
                 writes[s["pl"]["p"][-1]["n"]] = (bi, si, eb.rvalue(s["rv"], (bi, si), 0))
     probs = []
+    if "ptr" not in writes:
+        # the clone is advanced through the crate's own primitive `inc_start(by)` (ptr += by, len -= by; the len is then overwritten): A20 decides
+        # what inc_start does, here its operand is the amount the pointer moves by
+        for bi, t in b.calls():
+            fn = callee(t)
+            if fn is not None and fn["name"] == "inc_start" and len(t["args"]) == 2 and not b.blocks[bi]["cleanup"]:
+                loc = (bi, len(b.blocks[bi]["stmts"]))
+                recv = eb.operand(t["args"][0], loc)
+                writes["ptr"] = (bi, 0, ("call", "core::ptr::const_ptr::<impl *const T>::add", (("field", recv, "ptr"), eb.operand(t["args"][1], loc))))
     if "len" not in writes or "ptr" not in writes:
         probs.append("slice does not set len and ptr of the clone")
     else:
